@@ -743,6 +743,11 @@ for _k in ["black_it/search_space.py::SearchSpace._check_bounds",
            "black_it/schedulers/rl/agents/epsilon_greedy.py::MABEpsilonGreedy.reset",
            "black_it/utils/base.py::get_closest", "black_it/utils/base.py::digitize_data",
            "black_it/schedulers/round_robin.py::RoundRobinScheduler.update",
+           "black_it/calibrator.py::Calibrator.check_convergence",
+           "black_it/samplers/r_sequence.py::RSequenceSampler._r_sequence",
+           "black_it/samplers/halton.py::halton",
+           "black_it/loss_functions/base.py::BaseLoss._check_coordinate_weights",
+           "black_it/loss_functions/base.py::BaseLoss._check_coordinate_filters",
            "black_it/calibrator.py::Calibrator.__validate_samplers_and_scheduler_constructor_args"]:
     REPLAY[_k] = _replay_contract
 for _c in ["BoundsNotOfSizeTwoError", "BoundsOfDifferentLengthError", "BadPrecisionLengthError",
@@ -925,3 +930,50 @@ from runtime import scopes_loss  # noqa: E402,F401
 from runtime import scopes_ckpt  # noqa: E402,F401
 from runtime import scopes_rl  # noqa: E402,F401
 from runtime import replay_ckpt  # noqa: E402,F401
+
+
+def _replay_check_convergence(reg, key, witness):
+    """Calibrator.check_convergence: the prover treats np.round as an uninterpreted function, so its counter-model need
+    not be a NumPy fact; the real method is run under its executable contract (np_round = numpy's round) on the
+    counter-model first and then on a battery around every rounding boundary k.5 * 10^-p."""
+    msg = _replay_contract(reg, key, witness)
+    if msg:
+        return msg
+    func, cls = rt.resolve(key)
+    for p in range(0, 14):
+        u = 10.0 ** (-p)
+        for best in (0.0, 0.49 * u, 0.5 * u, 0.51 * u, 0.7 * u, 0.99 * u, 1.0 * u, 1.49 * u, 1.5 * u, 2.5 * u, -0.5 * u,
+                     -0.7 * u, 3.0):
+            for extra in ([], [5.0, 7.5], [best + 1.0]):
+                losses = np.array(extra + [best], dtype=float)
+                kw = {"losses_samp": losses, "n_sampled_params": len(losses), "convergence_precision": p}
+                try:
+                    rt.check_call(reg, key, func, None, kw)
+                except rt.ContractViolation as e:
+                    return f"check_convergence(losses={losses.tolist()}, n={len(losses)}, precision={p}) -> {e}"
+                except TypeError:
+                    return None
+    return None
+
+
+REPLAY["black_it/calibrator.py::Calibrator.check_convergence"] = _replay_check_convergence
+
+
+def _replay_r_sequence(reg, key, witness):
+    """RSequenceSampler._r_sequence on real sampler objects: seeds whose start index is far from / close to 2^16, batches of
+    several sizes drawn one after the other - each call under the executable contract (shape, cursor advances by exactly
+    the points drawn, offset unchanged)."""
+    from black_it.samplers.r_sequence import RSequenceSampler
+    func, _cls = rt.resolve(key)
+    for seed in (0, 1, 1074, 2856, 4207, 5747):
+        for dims in (1, 2):
+            smp = RSequenceSampler(batch_size=2, random_state=seed)
+            for nb in (1, 16, 1000, 16, 30000, 3):
+                try:
+                    rt.check_call(reg, key, func, smp, {"nb_samples": nb, "dims": dims})
+                except rt.ContractViolation as e:
+                    return f"RSequenceSampler(random_state={seed})._r_sequence({nb}, {dims}) after earlier draws -> {e}"
+    return None
+
+
+REPLAY["black_it/samplers/r_sequence.py::RSequenceSampler._r_sequence"] = _replay_r_sequence
